@@ -36,7 +36,8 @@ def corner_indices(c, r, ringk, k):
 def cell_edges(c, r, k=K):
     """list of edges of the cell in ring order: each edge = list of k+1 unit vectors from corner to corner; None if malformed"""
     rg = geo.ring(c, k, cache=False)
-    idx = corner_indices(c, r, rg, k)
+    # with one segment per edge every vertex is a corner (no second boundary call: the ring is taken exactly as one caller gets it)
+    idx = list(range(len(rg))) if k == 1 else corner_indices(c, r, rg, k)
     if idx is None:
         return None, rg
     n = len(rg)
@@ -48,14 +49,17 @@ def cell_edges(c, r, k=K):
 
 def work_level(task):
     """rings of a chunk of cells of one level"""
-    paths = task
+    if isinstance(task, tuple):
+        paths, kk = task
+    else:
+        paths, kk = task, K
     acc = common.Acc()
     out = []
     for p in paths:
         c = rm.encode(p)
         r = rm.res(p)
         try:
-            edges, rg = cell_edges(c, r)
+            edges, rg = cell_edges(c, r, kk)
         except Exception as e:
             acc.violation(f'c03:level{r}:{c:#x}:raises', f'cell_to_boundary({c:#x}) raised {type(e).__name__}: {e}', {'kind': 'level', 'r': r})
             continue
@@ -324,6 +328,16 @@ def run(tier, t0):
             part.out = None
             acc.merge(part)
         certify_level(acc, r, cells)
+        if r <= 3:
+            # the same certificate on the rings with 1 and 2 segments per edge (the option values most callers use), cells in plain order
+            for kk in (1, 2):
+                cells = []
+                for part in common.pmap(work_level, [(ch, kk) for ch in common.chunks(paths, 400)], nproc=1 if r == 0 else None):
+                    cells.extend(part.out)
+                    part.out = None
+                    acc.merge(part)
+                certify_level(acc, r, cells)
+                acc.strata[f'level{r:02d}_segments{kk}_cells'] = len(cells)
     # ---- local adjacency exploration at every resolution >= 2
     depth = 1 if tier == 'quick' else 2
     tasks = []
